@@ -18,6 +18,7 @@ from minecraft.networking.connection import Connection, NetworkingThread, Packet
 from minecraft.exceptions import IgnorePacket
 
 from pyvc.driver import Unit
+from pyvc.models import AbstractSeq
 from pyvc.values import SInt, SBool, And, Or, Not, Implies
 from pyvc.interp import PyRaise
 from pyvc.loops import ForSpec
@@ -65,7 +66,7 @@ class AbsTypes(object):
         return SBool(_match(jt, tag_term(exc)))
 
 
-class AbsHandlers(object):
+class AbsHandlers(AbstractSeq):
     def __init__(self, n):
         self.n = n
 
@@ -131,6 +132,7 @@ class Chain(Unit):
         unit = self
         self.calls = []
         self.raised_by_handler = None
+        self.frame = None
         n = E.new_int('n_handlers', 0, None)
         conn = object.__new__(Connection)
         e0 = AbsExc(0)
@@ -175,7 +177,8 @@ class Chain(Unit):
             return None
         frame = getattr(self, 'frame', None)
         if frame is None:
-            return None
+            from pyvc.values import Unsupported
+            raise Unsupported('the handler loop was not reached through its loop contract (code restructured?)')
         caught = frame.locals.get('caught')
         cur = frame.locals.get('exc')
         # ---- one step of the fold (the arbitrary iteration) or the loop exit -------------------------
@@ -230,6 +233,69 @@ class Chain(Unit):
                 break
         return dict(name='C14.chain.random-chains', evaluations=cnt, failures=fails,
                     bound='seeded handler chains (0..4 handlers, type filters, early flags, raise/return) x 4 final-handler kinds')
+
+
+class ChainUnrolled(Unit):
+    """Second line for handler chains: complete unrolling for 0..3 handlers (bounded in the NUMBER of handlers, labelled
+    so), with the matching relation and every handler's behaviour still abstract, compared with the fold of the statement.
+    Independent of the loop shape, so it still decides when the loop contract no longer applies to restructured code."""
+    prop = 'C14'
+    name = 'C14.chain.unrolled'
+    int_mode = 'int'
+    functions = (C_ + '_handle_exception [<= 3 handlers, abstract behaviour]',)
+    max_paths = 20000
+
+    def setup(self, I):
+        install_exc_info(I)
+
+    def run(self, I):
+        E = I.E
+        k = E.fork(4, 'handlers')
+        trace, beh, raised = [], {}, {}
+
+        def mk(j):
+            def handler(exc, exc_info):
+                trace.append((j, exc))
+                if j not in beh:
+                    beh[j] = 'raise' if E.fork(2, 'h%d-raises' % j) else 'ret'
+                    raised[j] = AbsExc(E.new_int('raised%d' % j))
+                if beh[j] == 'raise':
+                    raise raised[j]
+            return handler
+        e0 = AbsExc(E.new_int('original'))
+        conn = object.__new__(Connection)
+        conn.__dict__.update(handle_exception=False, reactor=types.SimpleNamespace(handle_exception=lambda e, i: False),
+                             _exception_handlers=[(mk(j), AbsTypes(self, j)) for j in range(k)],
+                             networking_thread=types.SimpleNamespace(interrupt=False), new_networking_thread=None,
+                             exception=None, exc_info=None)
+        try:
+            I.call(raw(Connection, '_handle_exception'), conn, e0, (AbsExc, e0, None))
+        except PyRaise as e:
+            E.check('unrolled.no-raise-with-final-False', False, note='%r' % (e.exc,))
+            return None
+        # the fold of the statement, over the same abstract relation and behaviours
+        cur, want = e0, []
+        for j in range(k):
+            if I.truth(SBool(_match(z3.IntVal(j), tag_term(cur)))):
+                want.append((j, cur))
+                if j not in beh:
+                    break                      # the code never called a handler the fold calls: trace comparison fails below
+                if beh[j] == 'ret':
+                    break
+                cur = raised[j]
+        E.check('unrolled.trace-equals-fold', len(trace) == len(want) and all(a[0] == b[0] and a[1] is b[1] for a, b in zip(trace, want)),
+                note='handler calls %r, try/except semantics %r' % ([t[0] for t in trace], [w[0] for w in want]))
+        E.check('unrolled.records-last', conn.exception is cur)
+        return None
+
+    def replay(self, model, label):
+        import random
+        rp = None
+        for seed in range(800):
+            rp = replay_chain(random.Random(seed))
+            if rp['confirmed']:
+                return rp
+        return rp
 
 
 class E1(Exception):
@@ -499,4 +565,4 @@ def c15_units():
 
 
 def units(tier):
-    return [RegisterHandler(), Chain(), ThreadWrapper()]
+    return [RegisterHandler(), Chain(), ChainUnrolled(), ThreadWrapper()]
